@@ -27,7 +27,7 @@ RULE = ("Hypothesis draws a type program (objects with aliases, defaults, flatte
         "aggregate (flatten / properties) field, or a set/tuple/enum.  Distinct = hash(type shape, value shape, options).")
 ASSUMPTIONS = ["values are well-typed instances of the root type (ill-typed values are outside the statement)",
                "exclude_none on a non-Optional field holding None, and a value fitting only a later same-class union alternative, are UNSPECIFIED"]
-BUDGET = {"quick": 900, "thorough": 14000}
+BUDGET = {"quick": 1600, "thorough": 14000}
 SHARDS = {"quick": 8, "thorough": 16}
 MIN_NONTRIVIAL = {"quick": 1500, "thorough": 30000}
 TECHNIQUE = "property-based testing (Hypothesis): generated type programs x typed values x options vs independent reference serializer"
